@@ -44,7 +44,8 @@ PROPS = {
         runs=lambda t: [catalogue(t, "enc,dec", values=(6, 30), nbytes=(120, 1500), exhaustive=(1, 1)),
                         special(t, "helpers,builder,listvar", count=(6000, 100000))],
         corr=["corr.dec.class", "corr.builder", "corr.listvar", "corr.read_offset", "corr.split_union", "corr.const"],
-        oracle=["oracle.C05", "abort"]),
+        oracle=["oracle.C05", "abort", "deep-abort"],
+        deep=[(200, True), (20000, False)]),
     "C06": dict(
         runs=lambda t: [catalogue(t, "decalloc", values=(8, 40), nbytes=(80, 800), exhaustive=(0, 0))],
         corr=["corr.alloc", "corr.dec.class", "corr.const"], oracle=["oracle.C06", "abort"],
